@@ -455,7 +455,7 @@ def meSubEntry (t : Topic) (presencer : Bool) (name : String) (s : SubRow) : Str
   let ok : Bool := isReader sm && isJoiner sm
   let (r, v, d) := if ok then (s.readId, s.recvId, s.delId) else (0, 0, 0)
   let online : Bool := (match psGet t.perSubs name with | some (o, _) => o | none => false) && presencer
-  let priv := match s.priv with | some p => s!":priv={p}" | none => ""
+  let priv := match s.priv with | some p => s!":priv={showTok (some p)}" | none => ""
   s!"{name}:{showMode s.want}/{showMode s.given}/{showMode sm}:r{r}:v{v}:d{d}{if online then ":on" else ""}{priv}"
 
 /-- {get sub} on `me`: the list of contacts (replyGetSub, TopicCatMe); from a session which is not attached, the user's own
@@ -471,7 +471,7 @@ def Ctx.opGetMeSub (c : Ctx) (a : Actor) : Ctx :=
       if s.deleted then c.emit a.sid s!"meta {tn} sub[-:_/_/_:r0:v0:d0:deleted]" else
       let sm := s.want &&& s.given
       let (r, v, d) := if isReader sm ∧ isJoiner sm then (s.readId, s.recvId, s.delId) else (0, 0, 0)
-      let priv := match s.priv with | some p => s!":priv={p}" | none => ""
+      let priv := match s.priv with | some p => s!":priv={showTok (some p)}" | none => ""
       c.emit a.sid s!"meta {tn} sub[{a.uid}:{showMode s.want}/{showMode s.given}/{showMode sm}:r{r}:v{v}:d{d}{priv}]"
   else
   match c.w.live? tn with
